@@ -447,6 +447,8 @@ def family(rec):
             return 'E-text/adjacent-tokens-pasted'
         return 'E-text/' + diffsig(exp, got, rec['defined'])
     sig = diffsig(exp, got, rec['defined'])
+    if sig == 'stringification-loses-argument-list-of-invocation-inside-argument':
+        return 'wrong-expansion/' + sig
     if 'uninvoked-funclike-name-followed-by-funclike-name' in rec['flags']:
         return 'wrong-expansion/funclike-name-directly-after-uninvoked-funclike-name'
     site = asan_probe(rec)
